@@ -51,6 +51,36 @@ pub fn trait_table() -> Vec<TraitRow> {
     rows
 }
 
+/// Auto traits of the iterator types, judged by what soundness needs (any correct implementation satisfies these
+/// implications; the crate as it stands makes none of the iterators Send or Sync): an iterator that hands out `&K`/`&V`
+/// may cross or be shared between threads only if K / V are Sync, one that hands out K / V by value only if they are Send.
+pub fn iter_trait_findings() -> (u64, Vec<String>) {
+    let mut bad = Vec::new();
+    let mut rows = 0u64;
+    macro_rules! it_row { ($k:ty, $ks:expr, $kb:expr, $v:ty, $vs:expr, $vb:expr) => {{
+        let (k_send, k_sync): (bool, bool) = $kb; let (v_send, v_sync): (bool, bool) = $vb;
+        let mut chk = |name: &str, is_send: bool, is_sync: bool, need_for_send: bool, need_for_sync: bool| {
+            rows += 1;
+            if is_send && !need_for_send { bad.push(format!("{}<K: {}, V: {}> is Send although what it hands out must not cross threads", name, $ks, $vs)); }
+            if is_sync && !need_for_sync { bad.push(format!("{}<K: {}, V: {}> is Sync although what it hands out must not be shared between threads", name, $ks, $vs)); }
+        };
+        chk("Iter", <Probe<lru_mem::Iter<'static, $k, $v>>>::IS_SEND, <ProbeSync<lru_mem::Iter<'static, $k, $v>>>::IS_SYNC, k_sync && v_sync, k_sync && v_sync);
+        chk("Keys", <Probe<lru_mem::Keys<'static, $k, $v>>>::IS_SEND, <ProbeSync<lru_mem::Keys<'static, $k, $v>>>::IS_SYNC, k_sync, k_sync);
+        chk("Values", <Probe<lru_mem::Values<'static, $k, $v>>>::IS_SEND, <ProbeSync<lru_mem::Values<'static, $k, $v>>>::IS_SYNC, v_sync, v_sync);
+        chk("Drain", <Probe<lru_mem::Drain<'static, $k, $v, WBoth>>>::IS_SEND, <ProbeSync<lru_mem::Drain<'static, $k, $v, WBoth>>>::IS_SYNC, k_send && v_send, k_sync && v_sync);
+        chk("IntoIter", <Probe<lru_mem::IntoIter<$k, $v, WBoth>>>::IS_SEND, <ProbeSync<lru_mem::IntoIter<$k, $v, WBoth>>>::IS_SYNC, k_send && v_send, k_sync && v_sync);
+        chk("IntoKeys", <Probe<lru_mem::IntoKeys<$k, $v, WBoth>>>::IS_SEND, <ProbeSync<lru_mem::IntoKeys<$k, $v, WBoth>>>::IS_SYNC, k_send && v_send, k_sync && v_sync);
+        chk("IntoValues", <Probe<lru_mem::IntoValues<$k, $v, WBoth>>>::IS_SEND, <ProbeSync<lru_mem::IntoValues<$k, $v, WBoth>>>::IS_SYNC, k_send && v_send, k_sync && v_sync);
+    }} }
+    macro_rules! it_rows_v { ($k:ty, $ks:expr, $kb:expr) => {
+        it_row!($k, $ks, $kb, WBoth, "Send+Sync", (true, true)); it_row!($k, $ks, $kb, WSendOnly, "Send only", (true, false));
+        it_row!($k, $ks, $kb, WSyncOnly, "Sync only", (false, true)); it_row!($k, $ks, $kb, WNeither, "neither", (false, false));
+    } }
+    it_rows_v!(WBoth, "Send+Sync", (true, true)); it_rows_v!(WSendOnly, "Send only", (true, false));
+    it_rows_v!(WSyncOnly, "Sync only", (false, true)); it_rows_v!(WNeither, "neither", (false, false));
+    (rows, bad)
+}
+
 /// sanity of the probe itself on types whose auto traits are known
 pub fn probe_selftest() -> bool {
     <Probe<WBoth>>::IS_SEND && <ProbeSync<WBoth>>::IS_SYNC && <Probe<WSendOnly>>::IS_SEND && !<ProbeSync<WSendOnly>>::IS_SYNC
